@@ -46,6 +46,43 @@ import (
 
 var vle = binary.LittleEndian
 
+const valClauseOwn = "the bytes produced for a value stay what they are when other values are encoded afterwards"
+
+// valOthers: a few other values of the same Go type (different content, same and different length)
+func valOthers(v interface{}) []interface{} {
+	switch x := v.(type) {
+	case uint8:
+		return []interface{}{x ^ 0xff}
+	case int16:
+		return []interface{}{^x}
+	case uint16:
+		return []interface{}{^x}
+	case int32:
+		return []interface{}{^x}
+	case uint32:
+		return []interface{}{^x}
+	case int64:
+		return []interface{}{^x}
+	case uint64:
+		return []interface{}{^x}
+	case float32:
+		return []interface{}{-x - 1}
+	case float64:
+		return []interface{}{-x - 1}
+	case bool:
+		return []interface{}{!x}
+	case string:
+		return []interface{}{strings.Repeat("\xff", len(x)), strings.Repeat("z", len(x)+3)}
+	case []byte:
+		o := make([]byte, len(x))
+		for i := range o {
+			o[i] = ^x[i]
+		}
+		return []interface{}{o, append(append([]byte{}, o...), 1, 2, 3)}
+	}
+	return nil
+}
+
 const valClauseZone = "a date/time value is encoded by its clock reading (the types carry no zone): the same reading in another location gives the same bytes"
 
 var (
@@ -352,8 +389,17 @@ func valImpl(f []string) string {
 			if after := valShowSafe(v); after != shownBefore {
 				return "enc-mutates-value"
 			}
-			if bs2, st2 := valBytes(t, v, l); st2 != "ok" || hx(bs2) != hx(bs) {
+			keep := hx(bs)
+			if bs2, st2 := valBytes(t, v, l); st2 != "ok" || hx(bs2) != keep {
 				return "enc-not-repeatable"
+			}
+			// the bytes handed out belong to the caller: encoding OTHER values afterwards (the next field of
+			// the row, another goroutine's value) does not change them
+			for _, o := range valOthers(v) {
+				valBytes(t, o, l)
+			}
+			if hx(bs) != keep {
+				return "enc-result-overwritten"
 			}
 			// date/time types carry no zone: what is encoded is the clock reading. The same reading in
 			// other locations (fixed offsets, zones with daylight saving: on a transition day the time
@@ -674,6 +720,9 @@ func valOracle(line, out string) string {
 		if out == "enc-mutates-value" || out == "enc-not-repeatable" {
 			return "encoding a value leaves the value as it was and gives the same bytes every time"
 		}
+		if out == "enc-result-overwritten" {
+			return valClauseOwn
+		}
 		if strings.HasPrefix(out, "enc-depends-on-location") {
 			return valClauseZone
 		}
@@ -690,6 +739,9 @@ func valOracle(line, out string) string {
 	case "rt":
 		if out == "enc-mutates-value" || out == "enc-not-repeatable" {
 			return "encoding a value leaves the value as it was and gives the same bytes every time"
+		}
+		if out == "enc-result-overwritten" {
+			return valClauseOwn
 		}
 		if strings.HasPrefix(out, "enc-depends-on-location") {
 			return valClauseZone
